@@ -147,6 +147,9 @@ func (H) Tune(prop string, plan any, cfg *simrt.Config) {
 	// C13: "no message crashes the process" includes the runtime's abort on overlapping map accesses, which cannot
 	// happen inside the simulation: predict it from happens-before instead
 	cfg.Race = prop == "C13"
+	if dp, ok := plan.(*DBPlan); ok && dp.Stall > 0 {
+		cfg.MaxSteps = 1500000 // a thousand writes and their notifications
+	}
 	cfg.MaxAdvIdx = 1 // expiry times are compared with the model: only millisecond clock steps while a request is in flight
 	if cfg.PAdvance > 0.01 {
 		cfg.PAdvance = 0.01
